@@ -496,8 +496,153 @@ pub fn run_threads(unit: &str, tier: Tier, cx: &ShardCtx) -> UnitResult {
     r
 }
 
+// ---- histories over hand-written (non-AST) parsers: regex, text, pratt, recursive, memoized ------------------
+
+type SEx = extra::Err<Rich<'static, char>>;
+type SP = chumsky::Boxed<'static, 'static, &'static str, String, SEx>;
+
+pub fn static_parsers() -> Vec<(&'static str, fn() -> SP, Vec<&'static str>)> {
+    use chumsky::regex::regex;
+    vec![
+        (
+            "regex words, padded, repeated",
+            || regex::<&str, SEx>("[a-z]+").padded().repeated().collect::<Vec<&str>>().map(|v| v.join("|")).boxed(),
+            vec!["ab cd", "abcd efg", "", "ab 1", " x", "abcde", "a b c", "1"],
+        ),
+        (
+            "regex number or ident alternatives",
+            || regex::<&str, SEx>("[0-9]+").or(regex("[a-z_]+")).separated_by(just(',')).collect::<Vec<&str>>().map(|v| v.join("|")).boxed(),
+            vec!["1,a", "a,1", ",", "12,ab,3", "a,,b", "", "1,", "x"],
+        ),
+        (
+            "text::ident / int keyword mix",
+            || text::keyword::<_, _, SEx>("let").padded().ignore_then(text::ident().padded()).then_ignore(just('=')).then(text::int(10).padded()).map(|(a, b): (&str, &str)| format!("{a}={b}")).boxed(),
+            vec!["let x = 1", "let letx=10", "letx = 1", "let x 1", "let = 1", "", "let x = 01", "let y=7 "],
+        ),
+        (
+            "pratt arithmetic",
+            || {
+                text::int::<_, SEx>(10)
+                    .map(|s: &str| s.to_string())
+                    .pratt((infix(left(1), just('+'), |l: String, _, r: String, _| format!("({l}+{r})")), infix(right(2), just('^'), |l: String, _, r: String, _| format!("({l}^{r})")), prefix(3, just('-'), |_, r: String, _| format!("(-{r})"))))
+                    .boxed()
+            },
+            vec!["1+2", "1^2^3", "-1+2", "1+", "", "^", "1+2^3+4", "--1"],
+        ),
+        (
+            "recursive brackets with memoized alternatives",
+            || recursive(|r| r.delimited_by(just('('), just(')')).map(|v: String| format!("<{v}>")).memoized().or(just('a').to("a".to_string()).memoized())).boxed(),
+            vec!["((a))", "a", "((a)", "(b)", "", "()", "(((a)))", "a)"],
+        ),
+        (
+            "recovery and validation",
+            || {
+                just::<_, &str, SEx>('a')
+                    .validate(|c, e, em| {
+                        let sp: SimpleSpan = e.span();
+                        if sp.start % 2 == 1 {
+                            em.emit(Rich::custom(sp, "odd"));
+                        }
+                        c
+                    })
+                    .recover_with(skip_then_retry_until(any().ignored(), just(';').ignored()))
+                    .repeated()
+                    .collect::<String>()
+                    .then_ignore(just(';').or_not())
+                    .boxed()
+            },
+            vec!["aaa", "axa", "xa;", ";", "aa;", "xxa", "", "a;a"],
+        ),
+    ]
+}
+
+fn sobs(p: &SP, s: &'static str, check: bool) -> String {
+    if check {
+        let c = p.check(s);
+        format!("check out={} errs={:?}", c.has_output(), c.errors().map(|e| format!("{e:?}")).collect::<Vec<_>>())
+    } else {
+        let (o, e) = p.parse(s).into_output_errors();
+        format!("parse out={:?} errs={:?}", o, e.iter().map(|e| format!("{e:?}")).collect::<Vec<_>>())
+    }
+}
+
+/// every history of length <= `maxlen` over the pool of inputs x (parse, check) through one long-lived
+/// parser value (and a clone made before the history starts); each result equals a fresh parser's
+pub fn run_static_histories(unit: &str, maxlen: usize, cx: &ShardCtx) -> UnitResult {
+    let mut r = UnitResult { name: unit.to_string(), exhaustive: true, ..Default::default() };
+    let ps = static_parsers();
+    let mut case = 0usize;
+    let mut distinct = HashSet::new();
+    for (pname, mk, pool) in &ps {
+        let fresh: Vec<[String; 2]> = pool.iter().map(|w| [sobs(&mk(), w, false), sobs(&mk(), w, true)]).collect();
+        for f in &fresh {
+            distinct.insert(f[0].clone());
+        }
+        let nops = pool.len() * 2;
+        let mut total = 0usize;
+        for len in 1..=maxlen {
+            total += nops.pow(len as u32);
+        }
+        // enumerate histories as numbers in base nops, shortest first
+        let mut base = 0usize;
+        for len in 1..=maxlen {
+            let n = nops.pow(len as u32);
+            for idx in 0..n {
+                let me = case % cx.nshards == cx.shard;
+                case += 1;
+                if !me || cx.skip.contains(&(case - 1)) {
+                    continue;
+                }
+                if idx % 512 == 0 {
+                    (cx.progress)(case - 1);
+                }
+                let mut ops = vec![];
+                let mut k = idx;
+                for _ in 0..len {
+                    ops.push(k % nops);
+                    k /= nops;
+                }
+                r.cases += 1;
+                r.states += len as u64 + 1;
+                r.transitions += len as u64;
+                let res = catch_unwind(AssertUnwindSafe(|| {
+                    let p = mk();
+                    let q = p.clone();
+                    for (step, op) in ops.iter().enumerate() {
+                        let (w, c) = (op / 2, op % 2 == 1);
+                        // alternate between the original and the clone
+                        let got = sobs(if step % 2 == 0 { &p } else { &q }, pool[w], c);
+                        if got != fresh[w][c as usize] {
+                            return Err(format!("step {step} on {:?} ({}): got {got}, a fresh parser gives {}", pool[w], if c { "check" } else { "parse" }, fresh[w][c as usize]));
+                        }
+                    }
+                    Ok(())
+                }));
+                r.validated += len as u64;
+                let bad = match res {
+                    Ok(Ok(())) => None,
+                    Ok(Err(m)) => Some(m),
+                    Err(e) => Some(format!("panic: {}", e1::panic_msg(e))),
+                };
+                if let Some(m) = bad {
+                    mism(&mut r, "hist", unit, format!("{pname} history={:?}", ops.iter().map(|o| (pool[o / 2], if o % 2 == 1 { "check" } else { "parse" })).collect::<Vec<_>>()), "", m);
+                }
+            }
+            base += n;
+        }
+        let _ = (base, total);
+        if r.samples.len() < 4 {
+            r.samples.push(format!("{pname}: pool {:?}, all histories of length <= {maxlen} over {} operations", pool, nops));
+        }
+    }
+    r.distinct_outcomes = distinct.len() as u64;
+    r.desc = format!("operation histories on hand-written parsers ({}): every history of length <= {maxlen} over a pool of 8 inputs x (parse, check), alternating between one long-lived parser value and a clone of it; each result equals that of a freshly built parser", ps.iter().map(|p| p.0).collect::<Vec<_>>().join("; "));
+    r
+}
+
 pub fn run(unit: &str, tier: Tier, cx: &ShardCtx) -> UnitResult {
     match unit {
+        "histories-static" => run_static_histories(unit, if tier == Tier::Quick { 3 } else { 4 }, cx),
         "histories" => run_histories(unit, tier, cx),
         "threads" => run_threads(unit, tier, cx),
         _ => panic!("unknown unit {unit}"),
